@@ -86,5 +86,31 @@ sv h5 src/heapvec.rs 's = s.replace("        self.data.pop()", "        self.dat
 sv h6 src/heapvec.rs 's = s.replace("        self.data.capacity()", "        self.data.len()", 1)' changed SrcHeapVec
 sv h7 src/heapvec.rs 's = s.replace("    data: Vec<bigint::Limb>,", "    data: Vec<u32>,", 1)' omitted SrcHeapVec
 sv h8 src/heapvec.rs 's = s.replace("        debug_assert!(len <= self.capacity());", "        debug_assert!(len < self.capacity());", 1)' changed SrcHeapVec
+# ---- C-PRIM: the pinned primitives of num.rs (rule 10): every edit must be exit 2
+pin() {  # name  python-edit
+  local n="$1" e="$2" d="$W/$1"
+  mkdir -p "$d/repo/examples" "$d/repo/fuzz/fuzz_targets" "$d/repo/tests" "$d/repo/etc/correctness/test-parse-golang" "$d/out"
+  cp -r /repo/src "$d/repo/src"; cp /repo/examples/simple.rs "$d/repo/examples/"; cp /repo/fuzz/fuzz_targets/parse.rs "$d/repo/fuzz/fuzz_targets/"
+  cp /repo/tests/integration_tests.rs "$d/repo/tests/"; cp /repo/etc/correctness/test-parse-golang/main.rs "$d/repo/etc/correctness/test-parse-golang/"
+  python3 - "$d/repo/src/num.rs" "$e" <<'PY' || { echo "[$n] EDIT FAILED"; fails=$((fails+1)); return; }
+import sys
+p, edit = sys.argv[1], sys.argv[2]
+s = open(p).read(); before = s
+ns = {"s": s}; exec(edit, ns); s = ns["s"]
+assert s != before, "edit did not apply"
+open(p, "w").write(s)
+PY
+  timeout 120 "$BIN" "$d/repo/src" "$d/out" > "$d/log" 2>&1; rc=$?
+  if [ $rc -eq 2 ]; then echo "[$n] exit 2: $(grep -m1 ERROR "$d/log" | cut -c1-150)"; else echo "[$n] FAILED (exit $rc)"; fails=$((fails+1)); fi
+}
+pin p1 's = s.replace("return unsafe { *SMALL_F64_POW10.get_unchecked(exponent) };", "return unsafe { *SMALL_F64_POW10.get_unchecked(exponent + 1) };", 1)'
+pin p2 's = s.replace("    fn from_u64(u: u64) -> f64 {\n        u as _", "    fn from_u64(u: u64) -> f64 {\n        (u >> 1) as _", 1)'
+pin p3 's = s.replace("SMALL_INT_POW5.get_unchecked", "TMPX").replace("SMALL_INT_POW10.get_unchecked", "SMALL_INT_POW5.get_unchecked").replace("TMPX", "SMALL_INT_POW10.get_unchecked")'
+pin p4 's = s.replace("        f64::from_bits(u)", "        f64::from_bits(u ^ 1)", 1)'
+pin p5 's = s.replace("        f32::to_bits(self) as u64", "        f32::to_bits(self) as u64 | 1", 1)'
+pin p6 's = s.replace("            FastPathRadix::Five => 5,", "            FastPathRadix::Five => 6,", 1)'
+pin p7 's = s.replace("pub fn powd(x: f64, y: f64) -> f64 {\n    x.powf(y)", "pub fn powd(x: f64, y: f64) -> f64 {\n    x.powf(y + 1.0)", 1)'
+pin p8 's = s.replace("    #[inline]\n    fn from_bits(u: u64) -> f64 {", "    #[inline]\n    #[cold]\n    fn from_bits(u: u64) -> f64 {", 1)'
+pin p9 's = s.replace("pub(crate) unsafe fn int_pow_fast_path(exponent: usize, radix: FastPathRadix) -> u64 {", "pub(crate) unsafe fn int_pow_fast_path(radix: FastPathRadix, exponent: usize) -> u64 {", 1)'
 if [ $fails -eq 0 ]; then echo "mutation_check: PASS"; else echo "mutation_check: $fails FAILURE(S)"; fi
 exit $fails
